@@ -1,8 +1,9 @@
 (* Property C08: the type lattice obeys its laws.  Only theorem statements closed by `exact`,
    each followed by Print Assumptions; Examples show that hypotheses are satisfiable. *)
-From Coq Require Import ZArith List Bool PArith.
+From Coq Require Import ZArith List Bool PArith String.
 From Coq Require Import Sorting.Permutation.
-From C08 Require Import Model Proofs ProofsKind ProofsTrans ProofsTrans2 ProofsUnion ProofsMeet ProofsMeetComm ProofsJoin ProofsFuel Statement.
+From C08 Require Import Model Proofs ProofsKind ProofsTrans ProofsTrans2 ProofsUnion ProofsMeet ProofsMeetComm ProofsJoin ProofsFuel ProofsKey Statement.
+From Gen Require Import SubtypeKind.
 Import ListNotations.
 
 (* subtyping and proper subtyping are reflexive: every kind, every cache content, every class table *)
@@ -209,6 +210,17 @@ Proof.
   rewrite (sub_trans_F1 ct Hwf k a b c Hk Fa Fb Fc n m H1 H2 q y E). reflexivity.
 Qed.
 Print Assumptions subtype_trans_partial_total.
+
+(* cache key: every attribute of a subtype context that mypy/subtypes.py reads, except `options`, is an element of
+   the tuple built by SubtypeVisitor.build_subtype_kind, which also contains strict_optional and proper_subtype
+   (table regenerated from the source on every run) *)
+Theorem subtype_kind_key_complete : forall f, In f context_reads -> f <> "options"%string -> In f kind_key_fields.
+Proof. exact key_complete. Qed.
+Print Assumptions subtype_kind_key_complete.
+
+Theorem subtype_kind_key_table : key_table_ok = true.
+Proof. exact key_table. Qed.
+Print Assumptions subtype_kind_key_table.
 
 (* ---------------------------------------------------------------- hypotheses are satisfiable *)
 Local Open Scope positive_scope.
